@@ -8,4 +8,9 @@ require (
 	golang.org/x/text v0.11.0
 )
 
+require (
+	github.com/vmihailenco/msgpack/v5 v5.3.5 // indirect
+	github.com/vmihailenco/tagparser/v2 v2.0.0 // indirect
+)
+
 replace github.com/zclconf/go-cty => /repo
